@@ -258,7 +258,7 @@ Proof.
       rewrite (anyM_spec F (fun x => match x with
                                      | Bound b => negb (side_eqb (bl b) (br b)) || side_eqb (bl b) SCont
                                      | Filler _ => false end)) end.
-    2:{ intros [[l r la fb]|f]; reflexivity. }
+    2:{ intros [[l r la fb]|f]; cbn [bl br]; first [reflexivity | f_equal; apply orb_comm]. }
     cbn [bind]. fold (needs_unpack (items u)). destruct (needs_unpack (items u)).
     + rewrite tie_ubl_unpack by (try exact Hn; apply item_nz_left, Hnz). unfold of_opt.
       destruct (unpack_list (items u) (length fields)) as [v|] eqn:Ev; [|reflexivity]. cbn [bind].
